@@ -18,7 +18,9 @@ Definition g_restores_gains : bool := true.
 
 (* gnpy/topology/request.py: compute_path_dsjctn.  Matched: requests split by membership of a synchronization vector;
    the requests of a vector are taken in the order of the vector (dis.disjunctions_req.copy()) and the vector loop never
-   looks at the batch list; final loop: every non-synchronised request gets compute_constrained_path(network, req),
+   looks at the batch list; step 3 prunes a route that is no candidate for a request from the candidates of the vectors
+   that request belongs to (concerned_d_id), never from another vector;
+   final loop: every non-synchronised request gets compute_constrained_path(network, req),
    the only call, nothing kept from one request to the next. *)
 Definition g_route_memo : bool := false.
 
